@@ -443,12 +443,14 @@ def run(tier, seed):
         if key in searched or len(searched) >= 4:
             continue
         searched.add(key)
-        for tk in ("truncated", "gaussian", "gaussian-long-steps", "mixture_narrow-short-steps"):
+        for tk in ("truncated", "gaussian", "gaussian-long-steps", "gaussian-long-steps-randomised", "mixture_narrow-short-steps"):
             force = {"target": tk.split("-")[0], "kind": m["kind"]}
             if m["kind"] == "hmc":
                 force.update(mass=key[1], integrator=key[2], stepsize=0.5, steps=5, randomize=False, transitions=12)
                 if tk.endswith("short-steps"):
                     force.update(stepsize=0.05, steps=3, transitions=10)
+                if tk.endswith("long-steps-randomised"):
+                    force.update(stepsize={"lf": 1.4, "3s": 1.5, "4s": 2.0}.get(key[2], 1.2), steps=2, transitions=12, randomize=True)
                 if tk.endswith("long-steps"):
                     # steps as long as the integrator is meant for: what a fixed-step bias needs in order to show
                     force.update(stepsize=LONG_STEP.get(key[2], 0.6), steps=2, transitions=30)
@@ -480,9 +482,14 @@ def run(tier, seed):
     finally:
         shutil.rmtree(wd2, ignore_errors=True)
     nm = 8 if tier == "quick" else 64
-    for k in range(nm + 4):
+    for k in range(nm + 7):
         force = {"target": kinds[k % 8] if k % 8 < len(kinds) else "truncated"}                  # every target kind in every run
-        if k == nm + 3:
+        if k >= nm + 4:
+            # ... and the same long steps with the step size randomised per trajectory (the samplers' default)
+            integ = ["lf", "3s", "4s"][k - nm - 4]
+            force = {"target": "gaussian", "kind": "hmc", "mass": "unit", "integrator": integ, "stepsize": {"lf": 1.4, "3s": 1.5, "4s": 2.0}[integ], "steps": 2,
+                     "randomize": True, "transitions": 12}
+        elif k == nm + 3:
             # a target whose misfit is negative where most of its mass is, short steps to match its width
             force = {"target": "mixture_narrow", "kind": "hmc", "mass": "unit", "integrator": rnd.choice(["lf", "3s", "4s"]), "stepsize": 0.05, "steps": 3,
                      "randomize": False, "transitions": 10}
